@@ -175,6 +175,47 @@ def rule_push_order(model):
                           'client tuple is not pushed in the order given '
                           '(the last client must be searched first)',
                           node=n, ctx=fi)
+    # whether a client was given is decided by identity with None, never
+    # by the client's truth value: the client is an arbitrary application
+    # object whose emptiness as a container says nothing about the names
+    # it defines as attributes
+    cparam = fi.params()[1] if len(fi.params()) > 1 else None
+    for f2 in model.closure(fi):
+        if f2 is not fi:
+            continue
+        for n in own_nodes(f2.node):
+            test = n.test if isinstance(n, (ast.If, ast.IfExp, ast.While)) \
+                else None
+            if test is None:
+                continue
+            truthy = []
+
+            def scan(e):
+                if isinstance(e, ast.Name) and e.id == cparam:
+                    truthy.append(e)
+                elif isinstance(e, ast.UnaryOp) and isinstance(e.op,
+                                                               ast.Not):
+                    scan(e.operand)
+                elif isinstance(e, ast.BoolOp):
+                    for v in e.values:
+                        scan(v)
+                elif isinstance(e, ast.Call) and isinstance(
+                        e.func, ast.Name) and e.func.id in ('bool', 'len') \
+                        and e.args:
+                    scan(e.args[0])
+            scan(test)
+            if any(isinstance(x, ast.Name) and x.id == cparam
+                   for x in ast.walk(test)):
+                r.instance(f2.where, f'if {norm(test)}',
+                           'TRUTH VALUE' if truthy else 'identity/type test')
+            if truthy:
+                r.finding(f2.where, f'if {norm(test)}', 'whether a client '
+                          'was given is decided by its truth value: a '
+                          'client that is false as a container or number '
+                          '(an empty folder, a record set without rows) is '
+                          'dropped as a name source -- its attributes are '
+                          'then answered by lower-priority sources or not '
+                          'at all', node=n, ctx=f2)
     r.require_floor(6)
     return r
 
